@@ -134,8 +134,25 @@ class relative_so3(FnContract):
     def result(self, c, a):
         return c.matrix("relso3", 3, 3)
 
+    def _accept_steps(self, c, res):
+        rtr = np.dot(np.asarray(res).T, np.asarray(res))
+        for i in range(3):
+            for j in range(3):
+                yield "RtR_%d%d" % (i, j), c.eq(rtr[i, j], 1 if i == j else 0)
+        yield "det", c.eq(npstub.det(res), 1)
+
+    def hints(self, c, a, res):
+        so3 = c.And(*(spec.is_SO3_exact(a.r1, c.eq) + spec.is_SO3_exact(a.r2, c.eq)))
+        for lab, cond in self._accept_steps(c, res):
+            yield lab, c.Implies(so3, cond)
+
     def post(self, c, a, res):
         yield Clause("is_transpose_times", c.eq(res, spec.mul3(np.asarray(a.r1).T, a.r2)), role="prop")
+        so3 = c.And(*(spec.is_SO3_exact(a.r1, c.eq) + spec.is_SO3_exact(a.r2, c.eq)))
+        yield Clause("rotation_for_rotations", c.Implies(so3, c.And(*[cond for _, cond in self._accept_steps(c, res)])),
+                     role="aux", note="R1, R2 in SO(3) => R1^T R2 in SO(3)")
+        yield Clause("accepted_for_rotations", c.Implies(so3, so3_accept(c, res)), role="aux",
+                     note="... hence accepted by is_so3 / so3_log_angle")
 
 
 @register
@@ -243,6 +260,7 @@ class so3_log_angle(FnContract):
     """scipy-backed; the body is verified against the trusted contract |as_rotvec(R)| = angle(R)"""
     name = M + "so3_log_angle"
     props = ["C09", "C01", "C02", "C10", "C11"]
+    callers_must_not_raise = True
     raises = (Raises("LieAlgebraException", "not_so3", lambda c, a: c.Not(so3_accept(c, a.r)), role="prop"), )
 
     def cases(self):
